@@ -224,7 +224,25 @@ def c06_jobs(tier, seed):
     return j
 
 
+def c18_jobs(tier, seed):
+    q = tier == "quick"
+    s = 30 if q else 400
+    j = [Job("dbg", "w_ffi", "errmap", timeout=600, engine="error-map-enumeration")]
+    for pat in ("ps", "ev", "rr"):
+        j += shards("dbg", "w_ffi", "diff --pattern %s" % pat, 2 if q else 3, s, seed, first={"ps": 0, "ev": 10, "rr": 20}[pat], engine="c-vs-rust-differential")
+    j += shards("rel", "w_ffi", "diff --pattern all", 2 if q else 3, s, seed, first=30, engine="c-vs-rust-differential")
+    j += shards("asan", "w_ffi", "diff --pattern all", 2 if q else 3, s, seed, first=40, engine="c-vs-rust-differential-asan")
+    return j
+
+
 PROPS = {
+    "C18": {
+        "level": "exploration",
+        "jobs": c18_jobs,
+        "rule": "(1) error mapping: for every `impl IntoCInt for T` of the C binding (47 types) ALL values of T are generated from T's definition in the repository sources (build.rs parses the enums; tuple variants are expanded recursively through the enums they carry) and pushed through the binding's own conversion (hook verif_into_c_int) in a child process per type: the conversion terminates, an error never converts to IOX2_OK, different variants never share a code, every code of one C enum has a distinct non-empty printable name from its *_string function, and no code spells another variant of the same type. (2) differential: random programs for publish-subscribe (u64 and [u8] payloads, copy and loan APIs, holding samples, port creation beyond the limits, incompatible opens, port counts), event (custom and default ids incl. out-of-range, try_wait) and request-response (send, receive, respond, drop of either end, is_connected) are executed with every role (service creator, each port) played through the Rust API or the C API: all-Rust, all-C, C-sender/Rust-receiver, Rust-sender/C-receiver and a mixed assignment on the same service; the result trace of every assignment must equal the all-Rust trace step by step (values, counts, element counts, and for failures the C code must be the code the binding's conversion gives the Rust error). (3) handle hygiene: after every program all handles are dropped through their own API: the service's port counts must follow the live handles exactly and return to zero, nothing may remain in the domain, and the ASan/LSan build must stay silent (leak = handle not released, double free = released twice). Non-trivial = an assignment whose trace equals the reference; distinct = distinct (pattern, config, program, assignment).",
+        "assumptions": COMMON_ASSUMPTIONS + ["the C API is driven from Rust through the rlib of iceoryx2-ffi-c (the same extern \"C\" functions a C program links against); the generated C header and the C++/Python layers are not exercised", "payload types: u64 and [u8] (the types whose Rust type name a C participant can reproduce); arbitrary custom type details are used C-to-C only through these two layouts", "error enums without a *_string function (9) are only checked for distinct codes"],
+        "floor": (300, 100),
+    },
     "C06": {
         "level": "exploration",
         "jobs": c06_jobs,
